@@ -19,3 +19,22 @@ package rekor
 //@   requires c != nil && base != nil
 //@   modifies heap
 //@   ensures[C19.s] true
+
+// The two closures handed to the feeder touch what the log's server sent: no response makes them panic or loop.
+// fetchCP (captures c, lURL, treeID, l)
+//@ func FeedLog$1
+//@   returns (cp, err)
+//@   requires c != nil && lURL != nil
+//@   modifies heap
+//@   ensures[C19.s] err != nil ==> cp == nil
+//@   invariant#1 0 <= $i
+//@   decreases#1 len(li.InactiveShards) - $i
+
+// fetchProof (captures c, lURL, treeID)
+//@ func FeedLog$2
+//@   returns (p, err)
+//@   requires c != nil && lURL != nil
+//@   modifies heap
+//@   ensures[C19.s] err != nil ==> p == nil
+//@   invariant#1 0 <= $i && $i <= len(cp.Hashes) && len(p) == len(cp.Hashes)
+//@   decreases#1 len(cp.Hashes) - $i
